@@ -663,7 +663,7 @@ func (c S3ApiController) GetActions(ctx *fiber.Ctx) error {
 	}
 
 	status := http.StatusOK
-	if acceptRange != "" {
+	if getstring(res.ContentRange) != "" {
 		status = http.StatusPartialContent
 	}
 
